@@ -168,6 +168,48 @@ def run(prog, check):
     lstrip = [n for n in ast.walk(j.node) if isinstance(n, ast.Call) and call_name(n) == 'lstrip']
     check.ob('C12.R3', '%s::leading-sign-removed-as-prefix' % j.key, bool(prefix or lstrip) or nm == 0, j.where,
              'the first term loses only its leading sign' if (prefix or lstrip) else 'no prefix removal found', "['x+y','-z']")
+    # ... and only a '+' is removed: the statement that cuts the first character off is control dependent on that character being '+'
+    from ..cfg import atomic_facts as _af3
+    jf = flatten(prog, j)
+    gj = cfgmod.build(jf)
+    for nd in gj.stmt_nodes():
+        if nd.kind != 'stmt' or nd.ast is None:
+            continue
+        cuts = [x_ for x_ in ast.walk(nd.ast) if isinstance(x_, ast.Subscript) and isinstance(x_.slice, ast.Slice) and x_.slice.upper is None and
+                x_.slice.step is None and isinstance(x_.slice.lower, ast.Constant) and x_.slice.lower.value == 1 and isinstance(x_.ctx, ast.Load)]
+        if not cuts:
+            continue
+        facts = [(v_, e_) for t_, o_ in gj.conditions_at(nd) for _x, v_, e_ in _af3(t_, o_)]
+        # a conditional expression around the cut is a condition as well
+        for ife in [x_ for x_ in ast.walk(nd.ast) if isinstance(x_, ast.IfExp)]:
+            if any(c_ is y_ for c_ in cuts for y_ in ast.walk(ife.body)):
+                facts += [(v_, e_) for _x, v_, e_ in _af3(ife.test, True)]
+            elif any(c_ is y_ for c_ in cuts for y_ in ast.walk(ife.orelse)):
+                facts += [(v_, e_) for _x, v_, e_ in _af3(ife.test, False)]
+        # judged only where a condition speaks about the text that is cut (a slice of the list of terms is no cut of a text)
+        subj = {unparse(c_.value) for c_ in cuts}
+        about = [(v_, e_) for v_, e_ in facts if any(unparse(y_) in subj for y_ in ast.walk(e_))]
+        if not about:
+            continue
+        facts = about
+
+        def says_plus(v_, e_):
+            if isinstance(e_, ast.Call) and call_name(e_) == 'startswith' and len(e_.args) == 1 and isinstance(e_.args[0], ast.Constant) and \
+                    e_.args[0].value == '+':
+                return v_ is True
+            if isinstance(e_, ast.Compare) and len(e_.ops) == 1 and isinstance(e_.comparators[0], ast.Constant) and e_.comparators[0].value == '+':
+                if isinstance(e_.ops[0], ast.Eq):
+                    return v_ is True
+                if isinstance(e_.ops[0], ast.NotEq):
+                    return v_ is False
+            return False
+        okp = any(says_plus(v_, e_) for v_, e_ in facts)
+        nm += 1
+        check.ob('C12.R3', '%s::cut-only-under-plus(%s)' % (j.key, unparse(cuts[0])), okp, '%s:%d' % (j.module.rel, nd.line),
+                 "the first character is cut off only when it is '+'" if okp else
+                 "the first character of the joined text is cut off without the test that it is '+' (conditions: %s): a leading '-' is lost"
+                 % (' and '.join(('' if v_ else 'not ') + unparse(e_) for v_, e_ in facts) or 'none'),
+                 "['-x', 'y'] must give -x+y")
     # the returned text is the plain concatenation of the signed terms
     rets = [r for r in ast.walk(j.node) if isinstance(r, ast.Return) and r.value is not None]
     joined = any(isinstance(x, ast.Call) and call_name(x) == 'join' and isinstance(x.func.value, ast.Constant) and x.func.value.value == ''
